@@ -127,32 +127,38 @@ inline std::string jlist(const std::vector<T> &v) {
 // ---- driver -------------------------------------------------------------------------------
 using ExecFn = std::function<void(const Execution &)>;
 
-inline std::vector<Execution> read_script(const char *path, int shard, int nshards) {
-    std::vector<Execution> all;
+// Streams the script: executions are parsed one at a time and handed to `sink` (a harness process
+// must stay small: every execution forks it, and LeakSanitizer scans its whole heap).
+inline void read_script(const char *path, int shard, int nshards, const std::function<void(const Execution &)> &sink) {
     std::ifstream in(path);
     std::string line;
     Execution cur;
-    bool open = false;
+    bool open = false, mine = false;
     int idx = 0;
     while (std::getline(in, line)) {
         if (line.empty()) continue;
-        std::istringstream is(line);
-        std::string tag;
-        is >> tag;
-        if (tag == "X") {
+        if (line[0] == 'X') {
+            mine = (idx % nshards == shard);
+            ++idx;
+            open = true;
+            if (!mine) continue;
+            std::istringstream is(line);
+            std::string tag;
+            is >> tag;
             cur = Execution();
             is >> cur.id;
             cur.cfg = parse_kv(is);
-            open = true;
-        } else if (tag == "S" && open) {
+        } else if (line[0] == 'S' && open) {
+            if (!mine) continue;
+            std::istringstream is(line);
+            std::string tag;
+            is >> tag;
             cur.steps.push_back(parse_kv(is));
-        } else if (tag == "E" && open) {
-            if (idx % nshards == shard) all.push_back(cur);
-            ++idx;
+        } else if (line[0] == 'E' && open) {
+            if (mine) sink(cur);
             open = false;
         }
     }
-    return all;
 }
 
 inline int drive(int argc, char **argv, const ExecFn &fn) {
@@ -170,23 +176,22 @@ inline int drive(int argc, char **argv, const ExecFn &fn) {
         } else if (!strcmp(argv[i], "nofork"))
             nofork = true;
     }
-    auto execs = read_script(argv[1], shard, nshards);
     out().open(argv[2]);
     if (out().fd < 0) {
         perror("open out");
         return 2;
     }
     long timeout_s = getenv("HR_EXEC_TIMEOUT") ? atol(getenv("HR_EXEC_TIMEOUT")) : 20;
-    for (const auto &ex : execs) {
+    read_script(argv[1], shard, nshards, [&](const Execution &ex) {
         out().xid = ex.id;
         if (nofork) {
             fn(ex);
             out().flush();
-            continue;
+            return;
         }
         fflush(nullptr);
         int errpipe[2];
-        if (pipe(errpipe) != 0) return 2;
+        if (pipe(errpipe) != 0) _exit(2);
         pid_t pid = fork();
         if (pid == 0) {
             close(errpipe[0]);
@@ -216,7 +221,7 @@ inline int drive(int argc, char **argv, const ExecFn &fn) {
         }
         out().line("\"e\":\"End\"");
         out().flush();
-    }
+    });
     return 0;
 }
 
